@@ -5,7 +5,8 @@ function call and nothing changes.
 One case = one session in an (adapter, SCREEN mode, active page, visual page) and a history of
 1-12 statements (VIEW / VIEW SCREEN with fill and border, WINDOW / WINDOW SCREEN, PSET, PRESET,
 LINE plain/B/BF/styled, CIRCLE with arcs and aspect, PAINT solid and tiled, DRAW, GET+PUT with all
-verbs, SCREEN ,,apage,vpage). Every statement runs through the silent ON ERROR runner of
+verbs, SCREEN ,,apage,vpage, and SCREEN <mode>[,,apage[,vpage]] between the graphics modes of the
+adapter and through SCREEN 0). Every statement runs through the silent ON ERROR runner of
 vlib.gfxutil; before and after each one the active page is snapshotted and all other pages are
 compared with their snapshots. The oracle tracks only the viewport rectangle (set by successful
 VIEW statements) and the active page number.
@@ -20,7 +21,8 @@ from vlib.gfxutil import MODE_BY_NAME, GfxSess
 
 ID = 'C30'
 LEVEL = 'exploration'
-RULE = ("Hypothesis-generated histories of 1-12 graphics statements in every graphics mode of "
+RULE = ("Seed-driven histories of 1-14 statements (graphics statements, page switches and mode "
+        "changes that keep or set the pages) - histories of 1-12 graphics statements in every graphics mode of "
         "every adapter (modes sampled per case, low resolution weighted 3:1; active page != "
         "visual page in about half the cases), coordinates drawn per axis from {inside the "
         "viewport, on its edges, +-1 outside it, on/over the screen edge, +-20000, +-32767/8, "
@@ -38,7 +40,17 @@ ASSUMPTIONS = [
     "long as no pixel outside the viewport / on another page changes; Python exceptions are not",
     "text modes: the error must be 5; when a number outside -32768..32767 occurs in the statement "
     "Overflow (6) is accepted as well (argument evaluation order is unspecified)",
-    "CLS, PCOPY and mode-changing SCREEN statements are not part of the statement list",
+    "SCREEN with a mode number (graphics->graphics, graphics->text->graphics, same mode, invalid "
+    "number; page arguments given or omitted = kept) is part of the histories; the oracle derives "
+    "the active page from the SCREEN history (explicit apage, else kept) and cross-checks it after "
+    "every successful SCREEN by printing a character and observing which page's pixels change "
+    "(text subsystem, independent of the graphics statements); page contents after a real mode "
+    "change are not asserted (re-snapshotted); a failing SCREEN must change nothing and is "
+    "accepted only with error 5 and an unavailable mode number or a non-zero page number involved",
+    "PCjr: a kept page number beyond the new mode's page count silently becomes 0 (accepted when "
+    "the print probe shows page 0); Olivetti: SCREEN 3-255 are the 640x400 mode",
+    "in the SCREEN 0 phases of a history every graphics statement must raise 5 and change nothing",
+    "CLS and PCOPY are not part of the statement list",
 ]
 TECHNIQUE = "Hypothesis statement histories; page-snapshot invariant after every statement"
 
@@ -53,6 +65,8 @@ def _rect_of_view(op):
 
 def _mode_for(mode, screen):
     """Graphics Mode of the same adapter with the given SCREEN number (manual table) or None."""
+    if mode.adapter == 'olivetti' and 3 <= screen <= 255:
+        screen = 3              # manual: SCREEN 3-255 all select the 640x400 mode on Olivetti
     return MODE_BY_NAME.get('%s/%d' % (mode.adapter, screen))
 
 
@@ -246,7 +260,7 @@ def check_case(case):
             if small and op.get('x'):
                 res.label('crossing')
             view = newview
-            if kind == 'page' and err == 0 and new_ap != ap or (kind == 'page' and op.get('probe')):
+            if kind == 'page' and err == 0:
                 ap = probe_active_page(i, new_ap)
             else:
                 ap = new_ap
@@ -351,7 +365,12 @@ def _p(x, y):
 class _State(object):
     """Generator-side idea of the coordinate system (only used to aim coordinates)."""
 
-    def __init__(self, W, H):
+    def __init__(self, W, H, adapter=None, nattr=None):
+        self.adapter = adapter
+        self.nattr = nattr
+        self.reset(W, H)
+
+    def reset(self, W, H):
         self.W, self.H = W, H
         self.view = (0, 0, W - 1, H - 1)
         self.vscreen = True          # statement coordinates are absolute
@@ -512,6 +531,41 @@ def _ops(r, state, N, kind, npages):
         ops.append({'k': 'page', 't': 'SCREEN ,,%d,%d' % (a, v), 'ap': a, 'vp': v})
         ops.append(_view_op(r, state, N, force_small=r.coin()))
         return ops
+    if kind in ('mode', 'via-text'):
+        # SCREEN with a mode number: another graphics mode of the adapter (pages given or kept),
+        # optionally through SCREEN 0; always followed by an explicit VIEW and more drawing
+        siblings = [m for m in gfxutil.MODES if m.adapter == state.adapter]
+
+        def screen_stmt(number):
+            form = r.pick(['keep', 'keep', 'a', 'av', 'av'])
+            a, v = r.int(0, 1), r.int(0, 1)
+            if form == 'keep':
+                return {'k': 'mode', 't': 'SCREEN %d' % number, 'screen': number, 'ap': None,
+                        'vp': None}
+            if form == 'a':
+                return {'k': 'mode', 't': 'SCREEN %d,,%d' % (number, a), 'screen': number,
+                        'ap': a, 'vp': None}
+            return {'k': 'mode', 't': 'SCREEN %d,,%d,%d' % (number, a, v), 'screen': number,
+                    'ap': a, 'vp': v}
+        ops = []
+        if kind == 'via-text':
+            ops.append(screen_stmt(0))
+            state.reset(640, 200)
+            for _ in range(r.int(0, 2)):
+                ops.extend(_ops(r, state, 4, r.pick(['pset', 'line', 'circle', 'paint', 'draw']),
+                                npages))
+        bad = [n for n in (1, 2, 3, 7, 8, 9, 10, 11, 13) if not any(m.screen == n for m in siblings)]
+        if state.adapter == 'olivetti':
+            bad = []
+        if bad and r.one_in(12):
+            ops.append(screen_stmt(r.pick(bad)))
+            return ops
+        target = r.pick(siblings)
+        ops.append(screen_stmt(target.screen))
+        state.reset(target.width, target.height)
+        state.nattr = target.nattr
+        ops.append(_view_op(r, state, target.nattr, force_small=not r.one_in(4)))
+        return ops
     if kind in ('pset', 'preset'):
         x, y, ext, big = _pt(r, state)
         c = _attr(r, N)
@@ -623,8 +677,9 @@ def _ops(r, state, N, kind, npages):
     raise ValueError(kind)
 
 
-KINDS = (['view'] * 2 + ['window'] * 2 + ['page'] * 2 + ['pset', 'preset'] + ['line'] * 6 +
-         ['circle'] * 4 + ['paint'] * 4 + ['draw'] * 4 + ['getput'] * 3)
+KINDS = (['view'] * 2 + ['window'] * 2 + ['page'] * 2 + ['mode'] * 2 + ['via-text'] +
+         ['pset', 'preset'] + ['line'] * 6 + ['circle'] * 4 + ['paint'] * 4 + ['draw'] * 4 +
+         ['getput'] * 3)
 
 PAGE_PAIRS = [(0, 0), (1, 1), (1, 0), (0, 1), (2, 1), (3, 0), (1, 2)]
 
@@ -635,12 +690,15 @@ def build_case(mname, seed, n):
     r = _R(seed)
     ap, vp = r.pick(PAGE_PAIRS)
     bg = r.pick([None, r.int(0, 1000)])
-    state = _State(mode.width, mode.height)
+    state = _State(mode.width, mode.height, mode.adapter, mode.nattr)
     ops = []
-    if not r.one_in(5):
+    if r.one_in(4):
+        # start with a mode change that keeps the (possibly non-zero) pages of the set-up
+        ops.extend(_ops(r, state, state.nattr, r.pick(['mode', 'mode', 'via-text']), 8))
+    elif not r.one_in(5):
         ops.append(_view_op(r, state, mode.nattr, force_small=True))
-    while len(ops) < 12:
-        ops.extend(_ops(r, state, mode.nattr, r.pick(KINDS), 8))
+    while len(ops) < 14:
+        ops.extend(_ops(r, state, state.nattr, r.pick(KINDS), 8))
     return {'mode': mname, 'ap': ap, 'vp': vp, 'bg': bg, 'ops': ops[:max(1, n)]}
 
 
@@ -652,7 +710,7 @@ def build_text_case(cfg, seed, n):
         state = _State(width * 8, 200)
         if r.one_in(3):
             state.win = (0, 0, 100, 100, r.coin())
-        kind = r.pick([k for k in KINDS if k != 'page'])
+        kind = r.pick([k for k in KINDS if k not in ('page', 'mode', 'via-text')])
         ops.extend(_ops(r, state, 4, kind, 1))
     for op in ops:
         op.setdefault('big', False)
@@ -661,7 +719,7 @@ def build_text_case(cfg, seed, n):
 
 def strat_case():
     return st.builds(build_case, st.sampled_from(MODE_WEIGHTED), st.integers(0, 2 ** 31),
-                     st.integers(1, 12))
+                     st.integers(1, 14))
 
 
 def strat_text():
@@ -679,6 +737,20 @@ def units(tier):
 
 
 REGRESSIONS = [
+    # seeded mutation that survived an earlier version (Graphics.set_page returning early when the
+    # page number is unchanged): a mode change keeps active page 1, init_mode re-binds the viewport
+    # to page 0 and nothing re-points it
+    {'mode': 'ega/7', 'ap': 1, 'vp': 1, 'bg': None, 'ops': [
+        {'k': 'mode', 't': 'SCREEN 9', 'screen': 9, 'ap': None, 'vp': None},
+        {'k': 'view', 't': 'VIEW (10,10)-(50,40)', 'rect': [10, 10, 50, 40]},
+        {'k': 'line', 't': 'LINE (0,0)-(100,100),3', 'x': True, 'big': False}]},
+    {'mode': 'vga/7', 'ap': 0, 'vp': 0, 'bg': None, 'ops': [
+        {'k': 'mode', 't': 'SCREEN 0,,1,1', 'screen': 0, 'ap': 1, 'vp': 1},
+        {'k': 'pset', 't': 'PSET (1,1)', 'x': False, 'big': False},
+        {'k': 'mode', 't': 'SCREEN 8', 'screen': 8, 'ap': None, 'vp': None},
+        {'k': 'view', 't': 'VIEW SCREEN (100,50)-(300,150),1,2', 'rect': [100, 50, 300, 150]},
+        {'k': 'circle', 't': 'CIRCLE (200,100),150,3', 'x': True, 'big': False},
+        {'k': 'paint', 't': 'PAINT (101,51),2,3', 'x': True, 'big': False}]},
     # finding page.switch-with-view.AssertionError (findings_proposed/C30.json), fixed fc57e203
     {'mode': 'ega/7', 'ap': 0, 'vp': 0, 'bg': None, 'ops': [
         {'k': 'view', 't': 'VIEW (1,1)-(10,10)', 'rect': [1, 1, 10, 10]},
@@ -698,6 +770,7 @@ REGRESSIONS = [
 ]
 
 KILLS = [
+    "independently seeded mutation, VERIF_REPO=<scratch> ./check C30 --unit histories (full quick counts): Graphics.set_page 'if apagenum == self._apagenum: return' -> exit 1, page.view/page.line/page.lineb/page.linebf/page.circle/page.paint/page.paint-tile/page.draw/page.pset/page.put (survived before mode-changing SCREEN statements were added to the histories)",
     'final code, VERIF_REPO=<scratch> ./check C30 (VERIF_GFX_SCALE=0.15): _convert_slice x1 clamp removed -> exit 1, clip.linebf (shrunk to VIEW SCREEN + one LINE ,BF)',
     'in-process screen (same check_case/strategies as ./check, stops at first failure; Hypothesis units only unless noted)',
     "GraphicsViewPort._convert_slice 'x1 = min(x1, xmax+1)' removed -> clip.linebf (case #53)",
